@@ -16,7 +16,8 @@ PARTIAL = ["the theorems are about Mathlib matrices over a field; the executable
            "numpy inv / lstsq / sklearn LinearRegression numerics and the 8-decimal rounding of to_joint_gaussian: tolerance 1e-6"]
 RULE = ("DAGs of 1-6 nodes with rational coefficients and positive variances, every split observed/missing (>= 2 missing in most cases), "
         "data of full column rank for fit; Gaussian distributions built from such networks for marginalise / reduce / canonical form / "
-        "product; non-trivial = at least one edge and (for predict) >= 2 missing variables; distinct = case JSON")
+        "product; non-trivial = at least one edge and (for predict) >= 2 missing variables; distinct = case JSON"
+        " Also: simulate (moments, reproducibility), LinearGaussianCPD.fit with permuted columns, model histories (replace CPD / refit), data far from the origin.")
 ASSUMPTIONS = ["residual variance is the unbiased sample variance of the residuals (pandas .var(), ddof=1), as the implementation documents by construction"]
 BUDGET_QUICK = 70
 LEVEL_TEXT = ("Kernel-checked (Mathlib matrices over a field): Sigma = (I-B)^-T Omega (I-B)^-1 is the unique solution of "
